@@ -1,19 +1,87 @@
 /-
   Avt.Spec.C14 — oracle of property C14 (decidable predicates evaluated on implementation states;
   the same definitions the theorems in Avt/Props/C14.lean are stated with).
+
+  C14: for any session without hard reset or resize that ends on the primary screen, the lines
+  handed out through `Changes.scrollback`, followed by the final `lines()`, are exactly the lines an
+  unlimited-scrollback terminal fed the same input holds.  Consequently `util::TextCollector`
+  yields the same text for every scrollback limit and every chunking.
 -/
 import Avt.Spec.Base
 
 namespace Avt.Spec.C14
 open Avt Avt.Spec
 
-def checkStep (_ev : StepEv) : List Verdict := []
+/-- the stream equation: what a limited terminal handed out, followed by what it still holds, is
+    what the unlimited terminal holds (cell for cell, pens and wrap marks included) -/
+def streamEq (drained : List Line) (limited unlimited : Vt) : Bool :=
+  drained ++ limited.lines == unlimited.lines
+
+/-- `p` is a prefix of `l` -/
+def isPrefix (p l : List Line) : Bool := p.length ≤ l.length && l.take p.length == p
+
+/-- the text of two collectors agrees up to trailing empty strings -/
+def sameTextModTrailingBlank (x y : List (List Nat)) : Bool :=
+  TextCollector.dropTrailingEmpty x == TextCollector.dropTrailingEmpty y
+
+/-- `X C14TC`: the two collectors must yield the same text.  Known finding KF5: `flush` removes
+    trailing empty strings only from its own final part, so blank lines that a limited collector has
+    already streamed out stay, while the unlimited collector drops them all: the outputs then differ
+    exactly by trailing empty strings.  That case is classified `KF5:`; any other difference is a
+    violation. -/
+def checkCollector (nontrivial : Bool) (limited unlimited : List (List Nat)) : Verdict :=
+  if limited == unlimited then .pass nontrivial
+  else if sameTextModTrailingBlank limited unlimited then .fail "KF5:text-collector-trailing-blank-lines"
+  else .fail "C14:text-collector-output-differs"
+
+/-- the session of an instance is one C14 speaks about -/
+def sessionOK (i : Inst) : Bool :=
+  !i.dead && !i.sawRis && !i.sawResize && !i.sawDrop && i.st.terminal.activeBufferType == .primary
+
+/-- step-level consequences of the same statement, checked on every observed `feed_str`:
+    (a) nothing is handed out by a call that ends on the alternate screen, nor by an unlimited
+        terminal;
+    (b) a call without RIS that starts and ends on the primary screen only appends below what was
+        already above the view and hands out from the top: the old scrollback is a prefix of
+        (handed out ++ new scrollback). -/
+def checkStep (ev : StepEv) : List Verdict :=
+  match ev.kind, ev.sb with
+  | .feedStr, some sb =>
+    let p := ev.prev.terminal
+    let n := ev.next.terminal
+    let noRis := !ev.funs.any (· == .ris)
+    let quiet := n.activeBufferType == .alternate || n.scrollbackLimit.isNone
+    let a := check "C14:step:alternate-or-unlimited-hands-out-lines" quiet (!quiet || sb.isEmpty)
+    let both := p.activeBufferType == .primary && n.activeBufferType == .primary && noRis
+    let b := check "C14:step:scrollback-not-preserved" (both && !sb.isEmpty)
+      (!both || isPrefix p.buffer.sb (sb ++ n.buffer.sb))
+    [a, b]
+  | _, _ => []
 
 def checkNew (_cols _rows : Nat) (_lim : Option Nat) (_st : Vt) : List Verdict := []
 
 def checkParserStep (_prev : Parser) (_c : Nat) (_next : Parser) (_fn : String) : List Verdict := []
 
-def checkDirective (_name : String) (_args : List String) (_inst : String → Option Inst)
-    (_tcOut : Nat → List (List Nat)) : List Verdict × List (Nat × Inst) := ([], [])
+/-- `X C14 k0 k1`: k0 has limit L, k1 is unlimited, same input under different chunkings.
+    `X C14TC k0 k1`: the two `TextCollector`s that received the same inputs. -/
+def checkDirective (name : String) (args : List String) (inst : String → Option Inst)
+    (tcOut : Nat → List (List Nat)) : List Verdict × List (Nat × Inst) :=
+  match name, args with
+  | "C14", [k0, k1] =>
+    match inst k0, inst k1 with
+    | some i0, some i1 =>
+      if !(sessionOK i0 && sessionOK i1) then ([.pass false], [])
+      else
+        ([check "C14:stream:drained++lines≠unlimited-lines" (!i0.drained.isEmpty)
+            (streamEq i0.drained i0.st i1.st),
+          check "C14:unlimited-terminal-handed-out-lines" true i1.drained.isEmpty], [])
+    | _, _ => ([.pass false], [])
+  | "C14TC", [k0, k1] =>
+    match inst k0, inst k1, k0.toNat?, k1.toNat? with
+    | some i0, some i1, some n0, some n1 =>
+      if !(sessionOK i0 && sessionOK i1) then ([.pass false], [])
+      else ([checkCollector (!i0.drained.isEmpty) (tcOut n0) (tcOut n1)], [])
+    | _, _, _, _ => ([.pass false], [])
+  | _, _ => ([], [])
 
 end Avt.Spec.C14
